@@ -18,7 +18,10 @@ for d in sorted(glob.glob(os.path.join(V, 'drivers', 'c*.cpp'))):
     out = subprocess.run([sys.executable, os.path.join(V, 'tools', 'ir2c.py'), ll, '--list'], capture_output=True, text=True).stdout
     for l in out.split('\n'):
         m = re.match(r'D (\S+) (.*)', l)
-        if m and ('cocls::' in m.group(2)) and not m.group(2).startswith('std::'): universe.setdefault(m.group(2), set()).add(os.path.basename(d))
+        if not m: continue
+        nm = m.group(2); head = nm.split('(')[0]
+        own = head.split(' ')[-1] if not head.startswith('cocls::') else head      # qualified name of the function itself (return type stripped)
+        if own.startswith('cocls::') or head.startswith('cocls::'): universe.setdefault(nm, set()).add(os.path.basename(d))
 subprocess.run(['rm', '-rf', tmp])
 unc = sorted(f for f in universe if f not in covered)
 print('instantiated cocls functions: %d, in at least one unit: %d, in no unit: %d' % (len(universe), len(universe) - len(unc), len(unc)))
